@@ -173,7 +173,7 @@ def gen_session(rng: random.Random, spec, *, p_invalid=0.0, p_query=0.0, p_reset
     subs = []    # indices subscribed, in order (mirrors Dispatcher.subscribers)
 
     def construct(k):
-        if k != 5 and any(kinds[i] == k for i in subs):
+        if k not in (5, 6) and any(kinds[i] == k for i in subs):
             return  # singleton guard will reject it
         kinds.append(k)
         subs.append(len(kinds) - 1)
